@@ -40,8 +40,11 @@ def gen_case(seed, i, nvar):
     gflags = []
     if nroots >= 2 and rng.random() < 0.25:
         gflags.append("--isolate")
-    if rng.random() < 0.2:
+    r_ = rng.random()
+    if r_ < 0.2:
         gflags += ["--rf-over", "0"]
+    elif r_ < 0.4 and "--isolate" not in gflags:
+        gflags += rng.choice([["--rf-under", "3"], ["--rf-under", "2"], ["--unique"], ["--rf-over", "2"]])
     if rng.random() < 0.15:
         gflags.append("-H")
     if rng.random() < 0.2:
